@@ -27,7 +27,8 @@ try:
         os.makedirs(os.path.dirname(os.path.join(W, f)) or W, exist_ok=True)
         shutil.copy(os.path.join(seeddir, f), os.path.join(W, f))
     cwd = os.path.join(W, demodir)
-    rc0, out0 = sh(['go', 'test', '-count=1'] + demoargs, cwd)
+    democmd = (['go', 'run'] + demoargs[1:]) if demoargs and demoargs[0] == 'gorun' else (['go', 'test', '-count=1'] + demoargs)
+    rc0, out0 = sh(democmd, cwd)
     rec['steps'].append(dict(step='demo on unchanged code', cmd='cd %s && go test -count=1 %s' % (demodir, ' '.join(demoargs)), exit=rc0, tail=out0[-600:]))
     if rc0 != 0: ok = False
     rca, outa = sh(['git', 'apply', '--whitespace=nowarn', os.path.join(seeddir, patchname)], W)
@@ -36,7 +37,7 @@ try:
     rcb, outb = sh(['go', 'build', './...'], W)
     rec['steps'].append(dict(step='go build ./... (root module)', exit=rcb, tail=outb[-300:]))
     if rcb != 0: ok = False
-    rc1, out1 = sh(['go', 'test', '-count=1'] + demoargs, cwd)
+    rc1, out1 = sh(democmd, cwd)
     rec['steps'].append(dict(step='demo with the seeded change', exit=rc1, tail=out1[-900:]))
     if rc1 == 0: ok = False
     for pk in pkgs:
